@@ -42,9 +42,10 @@ Section CachedFacts.
   Definition qs_match (qs : list question) (q : question) : Prop :=
     match qs with [] => True | [qr] => q_eq_ci qr q = true | _ => False end.
 
-  (* every cached message is OPT-free and was stored under the key of a question its own question section matches *)
+  (* provenance: every cached message is what [forward] returned for a question and a client with this very key
+     (hence OPT-free, with a question section matching that question: [entry_facts]) *)
   Definition entry_ok (k : N) (e : cp_entry) : Prop :=
-    count_opt (m_ar (e_msg e)) = 0 /\ exists q c, k = ckey q c /\ qs_match (m_qs (e_msg e)) q.
+    exists u q c, k = ckey q c /\ fst (forward_q ecs up u q c) = Some (e_msg e).
   Definition cinv (st : cp_state) : Prop := forall k e, cp_find k (st_map st) = Some e -> entry_ok k e.
 
   Lemma cinv_init clk : cinv (init_state clk).
@@ -62,6 +63,13 @@ Section CachedFacts.
     destruct (m_qs rep) as [|qr [|q2 rest]]; [exact I|exact Er|discriminate].
   Qed.
 
+  Lemma entry_facts k e : entry_ok k e ->
+    count_opt (m_ar (e_msg e)) = 0 /\ exists q c, k = ckey q c /\ qs_match (m_qs (e_msg e)) q.
+  Proof.
+    intros (u & q & c & Hk & Hf). destruct (forward_q ecs up u q c) as [o eff] eqn:Ef. cbn [fst] in Hf. subst o.
+    destruct (forward_ok _ _ _ _ _ Ef) as (Hc & Hq & _). split; [exact Hc|]. exists q, c. auto.
+  Qed.
+
   Lemma forward_fail_eff u q client eff : forward_q ecs up u q client = (None, eff) -> length eff <= 1.
   Proof.
     unfold forward_q. destruct (pack_req ecs q client) as [w| | |]; try (intros H; inversion H; cbn; lia).
@@ -69,18 +77,18 @@ Section CachedFacts.
   Qed.
 
   (* a store of such a message keeps the invariant *)
-  Lemma cinv_store st ts eps q client r :
-    cinv st -> count_opt (m_ar r) = 0 -> qs_match (m_qs r) q ->
+  Lemma cinv_store st ts eps u q client r :
+    cinv st -> fst (forward_q ecs up u q client) = Some r ->
     cinv (fst (cachectl_store maxttl st ts eps (ckey q client) (Some r) true)).
   Proof.
-    intros Hi Hc Hq. unfold cachectl_store. destruct (h_tc (m_hdr r)); [exact Hi|]. cbn [negb].
+    intros Hi Hsrc. unfold cachectl_store. destruct (h_tc (m_hdr r)); [exact Hi|]. cbn [negb].
     unfold mem_store. destruct (negative r).
     - destruct (cp_find (ckey q client) (st_map st)); [exact Hi|]. cbn [fst].
       intros k e. cbn [st_map]. rewrite find_put. destruct (k =? ckey q client)%N eqn:Ek.
-      + intros H. inversion H; subst e. apply N.eqb_eq in Ek. subst k. split; [exact Hc|]. exists q, client. auto.
+      + intros H. inversion H; subst e. apply N.eqb_eq in Ek. subst k. exists u, q, client. auto.
       + apply Hi.
     - cbn [fst]. intros k e. cbn [st_map]. rewrite find_put. destruct (k =? ckey q client)%N eqn:Ek.
-      + intros H. inversion H; subst e. apply N.eqb_eq in Ek. subst k. split; [exact Hc|]. exists q, client. auto.
+      + intros H. inversion H; subst e. apply N.eqb_eq in Ek. subst k. exists u, q, client. auto.
       + apply Hi.
   Qed.
 
@@ -133,7 +141,7 @@ Section CachedFacts.
         (co_prefetch (snd res) = true -> co_cached (snd res) = true)).
       { intros o _ _. cbv zeta. destruct (forward_q ecs up u q client) as [[r|] eff] eqn:Ef; cbn [fst snd co_resp co_eff co_cached co_prefetch].
         - destruct (forward_ok _ _ _ _ _ Ef) as (Hc & Hq & He). subst eff.
-          split; [now apply cinv_store|]. split; [exact Hc|]. split; [exact Hq|]. split; [discriminate|].
+          split; [apply (cinv_store st ts eps u q client r Hi); now rewrite Ef|]. split; [exact Hc|]. split; [exact Hq|]. split; [discriminate|].
           split; [cbn; lia|auto].
         - apply Hlocal. apply (forward_fail_eff _ _ _ _ Ef). }
       destruct og as [| | | | | |m s x]; try (apply (Hmiss _ eq_refl); intros; discriminate).
@@ -141,7 +149,7 @@ Section CachedFacts.
       cbn [fst snd co_resp co_eff co_cached co_prefetch].
       assert (Hs : snd (cachectl_get st t (ckey q client)) = OHit m s x) by now rewrite Eg.
       destruct (get_hit_entry _ _ _ _ _ _ Hs) as (e & Hf & -> & _ & _ & _).
-      destruct (Hi _ _ Hf) as (Hc & q0 & c0 & Hk & Hq0). apply Hinj in Hk. subst q0.
+      destruct (entry_facts _ _ (Hi _ _ Hf)) as (Hc & q0 & c0 & Hk & Hq0). apply Hinj in Hk. subst q0.
       split; [exact Hi|]. split; [now rewrite count_opt_subtract|]. split; [rewrite subtract_qs; exact Hq0|].
       split; [reflexivity|]. split; [cbn; lia|reflexivity].
     - cbn [fst snd co_resp co_eff co_cached co_prefetch]. apply Hlocal. cbn; lia.
@@ -150,7 +158,7 @@ Section CachedFacts.
   Lemma prefetch_c_inv st ts eps u q client : cinv st -> cinv (fst (prefetch_c' st ts eps u q client)).
   Proof.
     intros Hi. unfold prefetch_c. destruct (forward_q ecs up u q client) as [[r|] eff] eqn:Ef; [|exact Hi].
-    destruct (forward_ok _ _ _ _ _ Ef) as (Hc & Hq & _). cbn [fst]. now apply cinv_store.
+    cbn [fst]. apply (cinv_store st ts eps u q client r Hi). now rewrite Ef.
   Qed.
 
   Section WithInj.
@@ -236,6 +244,30 @@ Section CachedFacts.
         unfold qs_match in Hm.
         destruct (m_qs (co_resp (snd (handle_req_c' st t ts eps (lower_q q) client)))) as [|qr [|q2 rest]];
           [exact I|now apply q_eq_ci_lower_r|contradiction].
+    Qed.
+
+    (* C07 end to end: a response served from cache is, apart from TTL ageing, the ID / EDNS fix-ups, what [forward]
+       returned for the SAME (lower-cased) question, for a client with the same cache key (= the same group) *)
+    Theorem handle_c_hit_source st t ts eps m client : cinv st -> unsupported m = false ->
+      co_cached (snd (handle_c' st t ts eps m client)) = true ->
+      exists q qs u c r delta,
+        m_qs m = q :: qs /\ ckey (lower_q q) c = ckey (lower_q q) client /\
+        fst (forward_q ecs up u (lower_q q) c) = Some r /\
+        co_resp (snd (handle_c' st t ts eps m client)) =
+          fix_header m (let r' := subtract_ttl delta r in if has_opt m then add_or_replace_opt r' else remove_opt r').
+    Proof.
+      intros Hi Hu Hc. destruct (handle_c_supported st t ts eps m client Hu) as (q & qs & Hq & E).
+      rewrite E in Hc |- *. cbv zeta in Hc |- *. cbn [co_cached co_resp] in Hc |- *.
+      unfold handle_req_c in Hc |- *.
+      destruct (decide matches rules (q_name (lower_q q))) as [rc|u0|]; try discriminate.
+      destruct (cachectl_get st t (ckey (lower_q q) client)) as [st1 og] eqn:Eg.
+      destruct og as [| | | | | |mm s x];
+        try (destruct (forward_q ecs up u0 (lower_q q) client) as [[r0|] eff0]; discriminate).
+      assert (Hs : snd (cachectl_get st t (ckey (lower_q q) client)) = OHit mm s x) by now rewrite Eg.
+      destruct (get_hit_entry _ _ _ _ _ _ Hs) as (e & Hf & -> & _ & _ & _).
+      destruct (Hi _ _ Hf) as (u & q0 & c0 & Hk & Hsrc). pose proof (ckey_inj _ _ _ _ Hk) as Hqq. subst q0.
+      exists q, qs, u, c0, (e_msg e), (elapsed_secs t (e_stored e)).
+      split; [exact Hq|]. split; [now symmetry|]. split; [exact Hsrc|]. reflexivity.
     Qed.
 
     (* C07 (converse clause) / C19: a response served from the cache costs no upstream exchange on the request path, at
